@@ -1,8 +1,8 @@
 #!/usr/bin/env python3
 # usage: tools/addharness.py <prop> <fn> <cover>[,<cover>...] [key=json ...]   — appends a harness entry to checks.json
-import json, sys
+import json, sys, os
 prop, fn, covers = sys.argv[1], sys.argv[2], sys.argv[3].split(',')
-c = json.load(open('/verif/checks.json'))
+c = json.load(open(os.path.join(os.path.dirname(os.path.dirname(os.path.abspath(__file__))), 'checks.json')))
 hs = c[prop]['harnesses']
 if any(h['fn'] == fn for h in hs):
     print('already there'); sys.exit(0)
@@ -11,5 +11,5 @@ for kv in sys.argv[4:]:
     k, v = kv.split('=', 1)
     e[k] = json.loads(v)
 hs.append(e)
-json.dump(c, open('/verif/checks.json', 'w'), indent=1, ensure_ascii=False)
+json.dump(c, open(os.path.join(os.path.dirname(os.path.dirname(os.path.abspath(__file__))), 'checks.json'), 'w'), indent=1, ensure_ascii=False)
 print('added', fn, 'to', prop)
